@@ -45,6 +45,7 @@ class SysEngine(MempoolEngine):
         self.uw = None
         self.clock = 0
         self.notify_in_flight = 0
+        self.queryable = set()      # hashes of blocks the index has held (flushed) at some instant so far
         self.reply_t = {}
         self.notif_log = []        # (logical time, touched hashXs) of every notification issued
 
@@ -78,6 +79,7 @@ class SysEngine(MempoolEngine):
             return r
 
         async def on_block(self_, touched, height):
+            eng.sample_queryable()
             h = dbh()
             eng.db_heights_since_mp.add(h)
             if h != height:
@@ -108,8 +110,18 @@ class SysEngine(MempoolEngine):
             return r
         N.on_mempool, N.on_block, N.start = on_mempool, on_block, start
 
+    def sample_queryable(self):
+        db = self.srv.db if self.srv else None
+        if db is None or db.state is None:
+            return
+        b = self.world.by_hash.get(db.state.tip)
+        while b is not None and b.hash not in self.queryable:
+            self.queryable.add(b.hash)
+            b = b.prev
+
     def db_height_hook(self, loop):
         if self.srv and self.srv.db and self.srv.db.state:
+            self.sample_queryable()
             self.db_heights_since_mp.add(self.srv.db.state.height)
             if self.uw is not None and self.srv.caught_up():
                 self.uw.observed_caught_up()
@@ -132,12 +144,16 @@ class SysEngine(MempoolEngine):
                 p = msg['params'][0]
                 h = p['height']
                 db = self.srv.db
-                ok = db.state.height >= h
-                if ok:
-                    ok = db.headers_file.read(h * 80, 80).hex() == p['hex']
-                if not ok:
+                # "never sent before that block is queryable": the announced block must be, or have been, part of the
+                # flushed index (it may already be on its way out again during a reorg - a later notification corrects that)
+                self.sample_queryable()
+                blk = dsha(bytes.fromhex(p['hex']))
+                now = db.state.height >= h and db.headers_file.read(h * 80, 80).hex() == p['hex']
+                if now:
+                    self.bump('header_notifications_queryable_at_write')
+                if not now and blk not in self.queryable:
                     self.viol('notify/header-before-queryable', f'header notification for height {h} written while the index is at '
-                              f'{db.state.height} / the header file does not hold that header')
+                              f'{db.state.height} and has never held that block')
         return cb
 
     def new_client(self):
@@ -621,6 +637,14 @@ def child(case):
     except (vloop.Budget, vloop.Quiescent) as e:
         eng.inconclusive.append(f'{type(e).__name__}: {e}')
     out = eng.finish(loop)
+    # a run reports only the kinds of the properties it judges (plus dead server tasks); the rest is counted
+    prefixes = {'C07': ('subscriber/', 'notify/', 'c20-on-real-trace/', 'session/stale-read'), 'C10': ('stale/', 'session/stale-read'),
+                'C11': ('proof/',)}
+    allowed = ('server-task/',) + tuple(p for j in case.get('judge', ('C07', 'C10', 'C11')) for p in prefixes.get(j, ()))
+    kept = [v for v in out['violations'] if v['key'].startswith(allowed)]
+    if len(kept) != len(out['violations']):
+        out['counters']['violations_of_other_properties_seen'] = len(out['violations']) - len(kept)
+    out['violations'] = kept
     if loop is not None:
         out['sigs'] = [digest(([str(o) for o in case['script']], loop.schedule_hash()))]
     if case.get('sample'):
